@@ -250,6 +250,10 @@ class PBES2HSAlgModel(JWEKeyEncryption):
         self.hash_alg = getattr(hashes, f"SHA{hash_size}")()
 
     def compute_derived_key(self, key: bytes, p2s: bytes, p2c: int) -> bytes:
+        # The iteration count MUST be a positive integer, and the PBKDF2
+        # primitive takes a 32-bit signed value
+        if p2c < 1 or p2c > 0x7FFFFFFF:
+            raise ValueError('Invalid "p2c" value in header')
         # The salt value used is (UTF8(Alg) || 0x00 || Salt Input)
         salt = to_bytes(self.name) + b"\x00" + p2s
         kdf = PBKDF2HMAC(
